@@ -6,6 +6,8 @@ use symcore::*;
 
 pub fn instances(tier: &str) -> Vec<String> {
     let mut v: Vec<String> = vec!["deg0".into(), "deg1_real".into(), "deg1_cmplx".into(), "deg2_real".into(), "deg2_cmplx".into(), "deg3_triple".into(), "deg1_real_refine".into()];
+    v.push("deg4_deflation".into()); // driver + deflation of the iterative path, Laguerre through its contract
+    v.push("deg5_deflation".into());
     v.push("deg3_real".into()); // general Cardano branch, real coefficients (complex coefficients: path decisions do not finish)
     if tier == "thorough" { v.push("deg2_real_refine".into()); }
     v
@@ -13,6 +15,7 @@ pub fn instances(tier: &str) -> Vec<String> {
 
 pub fn configure(inst: &str, cfg: &mut Config) {
     if inst.starts_with("deg2") || inst.starts_with("deg3") { cfg.stubs = vec!["csqrt".into(), "ccbrt".into()]; }
+    if inst.contains("deflation") { cfg.stubs = vec!["laguer".into()]; }
 }
 
 fn z() -> Sym { Sym::lit(0.0) }
@@ -88,7 +91,7 @@ fn is_root(tag: &str, coeffs: &[Cmplx], root: Cmplx) {
 pub fn body(inst: &str) {
     let real = inst.contains("real");
     let refine = inst.ends_with("refine");
-    let deg = match &inst[..4] { "deg0" => 0, "deg1" => 1, "deg2" => 2, _ => 3 };
+    let deg = match &inst[..4] { "deg0" => 0, "deg1" => 1, "deg2" => 2, "deg3" => 3, "deg4" => 4, _ => 5 };
     let cre = var_vec("c", deg + 1);
     let cim = var_vec("ci", deg + 1);
     let coeffs: Vec<Cmplx> = (0..=deg).map(|k| Cmplx::new(cre[k], if real { z() } else { cim[k] })).collect();
@@ -98,6 +101,45 @@ pub fn body(inst: &str) {
     }
     let run = || if real { Polynomial::<Sym>::new(cre.clone()).roots(refine) } else { Polynomial::<Cmplx>::new(coeffs.clone()).roots(refine) };
     match inst {
+        "deg4_deflation" | "deg5_deflation" | "deg4_deflation_refine" => {
+            match catch(run) {
+                Ok(r) => {
+                    prove(&format!("exactly {} values are returned", deg), if r.size() == deg { B::True } else { B::False });
+                    let calls = poly_stub_calls();
+                    let expect_calls = if refine { 2 * deg } else { deg };
+                    prove(&format!("one root-finder call per root{} (made {})", if refine { " plus one polishing call each" } else { "" }, calls.len()), if calls.len() == expect_calls { B::True } else { B::False });
+                    if r.size() == deg && calls.len() == expect_calls {
+                        // call i (0-based) produced poly_roots[deg-1-i] from the polynomial deflated i times.
+                        // With h_i = (i-th deflated polynomial)(r_i) and r_k the k-th root found:
+                        //     p(r_k) = sum_{i<=k} prod_{m<i} (r_k - r_m) * h_i        (synthetic division, remainders dropped)
+                        let roots: Vec<Cmplx> = (0..deg).map(|i| Cmplx::new(calls[i].1, calls[i].2)).collect();
+                        let heval = |i: usize| -> Cmplx { let cs = &calls[i].0; let mut acc = cz(); let mut pw = Cmplx::new(Sym::lit(1.0), z()); for (cr, ci) in cs { acc = acc + Cmplx::new(*cr, *ci) * pw; pw = pw * roots[i]; } acc };
+                        for k in 0..(if refine { 0 } else { deg }) {
+                            let mut g = cz();
+                            let mut pw = Cmplx::new(Sym::lit(1.0), z());
+                            for c in &coeffs { g = g + *c * pw; pw = pw * roots[k]; }
+                            let mut hyps: Vec<(Cmplx, Cmplx)> = Vec::new();
+                            let mut cof = Cmplx::new(Sym::lit(1.0), z());
+                            for i in 0..=k { hyps.push((heval(i), cof)); cof = cof * (roots[k] - roots[i]); }
+                            let good = certificate(&format!("degree {} root found by call {}", deg, k), g, Cmplx::new(Sym::lit(1.0), z()), &hyps);
+                            if !good { is_root(&format!("degree {} root of call {}", deg, k), &coeffs, roots[k]); }
+                            // the value stored in the result vector is that root (unless polishing replaced it by another root of p)
+                            let stored = r[deg - 1 - k];
+                            if !refine { prove(&format!("result[{}] is the root found by call {}", deg - 1 - k, k), B::and(vec![eq(stored.real, roots[k].real), eq(stored.imag, roots[k].imag)])); }
+                        }
+                        if refine {
+                            // polishing runs against the UNDEFLATED polynomial: each final value is a root of p by the contract
+                            for j in 0..deg {
+                                let same_poly = calls[deg + j].0.len() == deg + 1 && (0..=deg).all(|t| calls[deg + j].0[t].0.same(coeffs[t].real) && calls[deg + j].0[t].1.same(coeffs[t].imag));
+                                prove(&format!("polishing call {} is made against the original polynomial", j), if same_poly { B::True } else { B::False });
+                                is_root(&format!("degree {} polished root {}", deg, j), &coeffs, r[j]);
+                            }
+                        }
+                    }
+                }
+                Err(st) => must_not_stop(&format!("degree {}: n values must be returned", deg), &st),
+            }
+        }
         "deg0" => {
             match catch(|| Polynomial::<Sym>::new(cre.clone()).roots(false)) { Ok(_) => { prove("a degree-0 polynomial is rejected (real)", B::False); } Err(Stop::Panic { .. }) => { prove("degree 0 rejected", B::True); } Err(st) => must_not_stop("deg0", &st) }
             match catch(|| Polynomial::<Cmplx>::new(coeffs.clone()).roots(true)) { Ok(_) => { prove("a degree-0 polynomial is rejected (complex)", B::False); } Err(Stop::Panic { .. }) => { prove("degree 0 rejected", B::True); } Err(st) => must_not_stop("deg0", &st) }
